@@ -172,7 +172,13 @@ def gen_valid(task):
         for _ in range(n):
             base = T.TASKS[task].gen(rng) if rng.random() < 0.85 else T.TASKS[task].gen_self(rng)
             base.pop("transform", None)
-            if task in ("melody", "multipitch"):
+            mel_kw = None
+            if task == "melody" and base.get("kw"):
+                # the estimate on its own time base with a continuous voicing curve and a documented interpolation kind
+                # (tasks.Melody.gen): valid, must be scored by evaluate()
+                mel_kw = dict(base.pop("kw"))
+                base["use_voicing"] = True
+            elif task in ("melody", "multipitch"):
                 base = vary_timebase(random.Random(rng.randint(0, 10 ** 9)), base)
             if task == "melody" and rng.random() < 0.03:
                 # empty sides: the frame measures define a score (0, with a warning) for empty series
@@ -190,6 +196,9 @@ def gen_valid(task):
                 ei[-1][1] = T.S(T.F(ei[-1][1]) - Fr(1, 20000))
                 base["est"] = [ei, base["est"][1]]
             ok_entries = [e for e in entries if admissible(task, e, base)]
+            if mel_kw is not None:
+                yield {"task": task, "entry": "evaluate", "fault": None, "base": base, "kw": mel_kw}
+                continue
             for e in entries:
                 if admissible(task, e, base):
                     then = [x for x in ok_entries if x != e and rng.random() < 0.3][:2]
